@@ -469,96 +469,112 @@ where
         if r' == 46 then go p'' (acc ++ [e]) r' fuel else (acc ++ [e], r', p'')
 end PS
 
-open PS in
-/-- `versionParser.version` for systems other than Maven and PyPI, up to (not including)
-the final `gemVersion` call. -/
-def parseGenericCore (sys : System) (str : Bytes) (allowInf : Bool) : Outcome Version :=
+namespace PS
+
+/-- NPM: `for p.lex.peek() == 'v' { p.lex.next() }`. -/
+def stripV (l : Lex) : Nat → Lex
+  | 0 => l
+  | fuel + 1 =>
+    let (r, l') := l.peek
+    if r == 118 then stripV (l'.next).2 fuel else l'
+
+/-- Stage 0 of `versionParser.version`: the leading `v`s. -/
+def gLead (sys : System) (str : Bytes) (allowInf : Bool) : PS :=
   let p : PS := { v := { sys := sys }, lex := { rest := str, prev := str, allowInf := allowInf } }
-  -- leading v's
-  let p : PS :=
-    match sys with
-    | .npm =>
-      let rec strip (l : Lex) : Nat → Lex
-        | 0 => l
-        | fuel + 1 =>
-          let (r, l') := l.peek
-          if r == 118 then strip (l'.next).2 fuel else l'
-      { p with lex := strip p.lex (str.length + 1) }
-    | .go =>
-      let (r, l) := p.lex.next
-      { p with lex := if r != 118 then l.setErr else l }
-    | .composer =>
-      let (r1, l1) := p.lex.peek
-      if r1 == 118 then { p with lex := (l1.next).2 }
-      else
-        let (r2, l2) := l1.peek
-        if r2 == 86 then { p with lex := (l2.next).2 } else { p with lex := l2 }
-    | _ => p
-  let (okNum, p) := number p
-  if !okNum then .err else
+  match sys with
+  | .npm => { p with lex := stripV p.lex (str.length + 1) }
+  | .go =>
+    let (r, l) := p.lex.next
+    { p with lex := if r != 118 then l.setErr else l }
+  | .composer =>
+    let (r1, l1) := p.lex.peek
+    if r1 == 118 then { p with lex := (l1.next).2 }
+    else
+      let (r2, l2) := l1.peek
+      if r2 == 86 then { p with lex := (l2.next).2 } else { p with lex := l2 }
+  | _ => p
+
+/-- `for i := 0; r == '.' && p.number(); i++ { r = p.lex.next() }`. -/
+def gNums (p : PS) (r : Rune) : Nat → PS × Rune
+  | 0 => (p, r)
+  | fuel + 1 =>
+    if r == 46 then
+      let (okN, p') := number p
+      if okN then
+        let (r', l') := p'.lex.next
+        gNums { p' with lex := l' } r' fuel
+      else (p', r)
+    else (p, r)
+
+/-- Stage 1: the numbers. `none` = `return nil, p.lex.err`. -/
+def gHead (sys : System) (str : Bytes) (allowInf : Bool) : Option (PS × Rune) :=
+  let (okNum, p) := number (gLead sys str allowInf)
+  if !okNum then none else
   let (r, l) := p.lex.next
-  let p := { p with lex := l }
-  -- for i := 0; r == '.' && p.number(); i++ { r = p.lex.next() }
-  let rec nums (p : PS) (r : Rune) : Nat → PS × Rune
-    | 0 => (p, r)
-    | fuel + 1 =>
-      if r == 46 then
-        let (okN, p') := number p
-        if okN then
-          let (r', l') := p'.lex.next
-          nums { p' with lex := l' } r' fuel
-        else (p', r)
-      else (p, r)
-  let (p, r) := nums p r (str.length + 1)
+  let (p, r) := gNums { p with lex := l } r (str.length + 1)
   let p := if sys == .nuget && p.v.num.length == 4 && p.v.getNum 3 == 0
     then { p with v := { p.v with num := p.v.num.take 3 } } else p
-  if r == 46 && p.v.num.length < 3 && sys != .rubygems then .err else
-  let (p, r) := if sys == .rubygems && isAlnumRune r then ({ p with lex := p.lex.back }, (45 : Rune)) else (p, r)
-  -- prerelease
-  let step : Outcome (PS × Rune) :=
-    if r == 45 then
-      if sys == .go && p.v.num.length < 3 then .err else
+  if r == 46 && p.v.num.length < 3 && sys != .rubygems then none else
+  if sys == .rubygems && isAlnumRune r then some ({ p with lex := p.lex.back }, (45 : Rune)) else some (p, r)
+
+/-- Stage 2: the prerelease part. -/
+def gPre (sys : System) (p : PS) (r : Rune) : Outcome (PS × Rune) :=
+  if r == 45 then
+    if sys == .go && p.v.num.length < 3 then .err else
+    let (pre, r', p') := metadata { p with v := { p.v with isPrerelease := true } }
+    .ok ({ p' with v := { p'.v with pre := p'.v.pre ++ pre } }, r')
+  else if r == 42 && sys == .nuget then
+    let (r1, l1) := p.lex.next
+    let p := { p with lex := l1 }
+    if r1 != eof then
       let (pre, r', p') := metadata { p with v := { p.v with isPrerelease := true } }
-      .ok ({ p' with v := { p'.v with pre := p'.v.pre ++ pre } }, r')
-    else if r == 42 && sys == .nuget then
-      let (r1, l1) := p.lex.next
-      let p := { p with lex := l1 }
-      if r1 != eof then
-        let (pre, r', p') := metadata { p with v := { p.v with isPrerelease := true } }
-        let p' := { p' with v := { p'.v with pre := p'.v.pre ++ pre } }
-        match p'.v.pre.getLast? with
-        | none => .err                       -- repair F12: metadata recorded the error
-        | some l =>
-          match l.getLast? with
-          | none => .panic                   -- l[len(l)-1] on an empty element (unreachable: elements are non-empty)
-          | some c => if c != 42 then .err else .ok (p', r')
-      else .ok (p, r1)
-    else if sys == .rubygems && r == 46 then
-      let (pre, r', p') := metadata { p with v := { p.v with isPrerelease := true } }
-      .ok ({ p' with v := { p'.v with pre := p'.v.pre ++ pre } }, r')
-    else .ok (p, r)
-  match step with
-  | .err => .err
-  | .panic => .panic
-  | .ok (p, r) =>
-  -- build
-  let step2 : Outcome (PS × Rune) :=
-    if r == 43 && sys != .rubygems then
-      if sys == .go && p.v.num.length < 3 then .err else
-      let startRest := p.lex.rest    -- position after '+'
-      let (_, r', p') := metadata p
-      let consumed := startRest.length - p'.lex.rest.length
-      .ok ({ p' with v := { p'.v with build := 43 :: startRest.take consumed } }, r')
-    else .ok (p, r)
-  match step2 with
-  | .err => .err
-  | .panic => .panic
-  | .ok (p, r) =>
+      let p' := { p' with v := { p'.v with pre := p'.v.pre ++ pre } }
+      match p'.v.pre.getLast? with
+      | none => .err                       -- repair F12: metadata recorded the error
+      | some l =>
+        match l.getLast? with
+        | none => .panic                   -- l[len(l)-1] on an empty element (unreachable: elements are non-empty)
+        | some c => if c != 42 then .err else .ok (p', r')
+    else .ok (p, r1)
+  else if sys == .rubygems && r == 46 then
+    let (pre, r', p') := metadata { p with v := { p.v with isPrerelease := true } }
+    .ok ({ p' with v := { p'.v with pre := p'.v.pre ++ pre } }, r')
+  else .ok (p, r)
+
+/-- Stage 3: the build part. -/
+def gBuild (sys : System) (p : PS) (r : Rune) : Outcome (PS × Rune) :=
+  if r == 43 && sys != .rubygems then
+    if sys == .go && p.v.num.length < 3 then .err else
+    let startRest := p.lex.rest    -- position after '+'
+    let (_, r', p') := metadata p
+    let consumed := startRest.length - p'.lex.rest.length
+    .ok ({ p' with v := { p'.v with build := 43 :: startRest.take consumed } }, r')
+  else .ok (p, r)
+
+/-- Stage 4: trailing text, `userNumCount`, zero padding, the recorded error. -/
+def gFinish (sys : System) (p : PS) (r : Rune) : Outcome Version :=
   let p := if r != eof then p.setErr else p
   let v := { p.v with userNumCount := p.v.num.length }
   let v := if (sys == .rubygems || sys == .nuget) && v.num.length < 3
     then { v with num := v.num ++ List.replicate (3 - v.num.length) 0 } else v
   if p.lex.err then .err else .ok v
+
+end PS
+
+/-- `versionParser.version` for systems other than Maven and PyPI, up to (not including)
+the final `gemVersion` call: the four stages in sequence. -/
+def parseGenericCore (sys : System) (str : Bytes) (allowInf : Bool) : Outcome Version :=
+  match PS.gHead sys str allowInf with
+  | none => .err
+  | some (p, r) =>
+    match PS.gPre sys p r with
+    | .err => .err
+    | .panic => .panic
+    | .ok (p, r) =>
+      match PS.gBuild sys p r with
+      | .err => .err
+      | .panic => .panic
+      | .ok (p, r) => PS.gFinish sys p r
 
 /-- `versionParser.version` for systems other than Maven and PyPI. `sys` is set when the
 Version is created and `ext` stays nil except for RubyGems (`gemVersion`); restating
